@@ -192,6 +192,34 @@ def run(facts, R):
                          or (y["callee"]["name"] == "next" and "Stream" in (y["callee"].get("trait") or ""))]
                 R.check(len(reads) == 1 and not _in_inner_cycle(lb, si, reads[0]), "deliver-by-key", lb.path, "delivered once per response",
                         "the matched send can repeat without reading another response", st.get("span"), "send lies only on the read loop")
+        # ---------------- unmatched-keeps-reading: a response whose id matches no waiter (late answer to a timed-out call, a
+        # duplicate) is dropped and the loop goes on reading; it must not end the reader, or every other call on the
+        # connection loses its response
+        if len(removes) == 1:
+            from analysis.guards import _variants_for_discr
+            from analysis.sym import switch_alternatives
+            ri, rt = removes[0]
+            reads_ = [term_pt(lb, x) for x, y in lb.calls() if callee_matches(y["callee"], "io::read_message", "async_io::read_message_async")
+                      or (y["callee"]["name"] == "next" and "Stream" in (y["callee"].get("trait") or ""))]
+            miss = []
+            for x in sorted(lb.live_blocks()):
+                t_ = lb.term(x)
+                if t_["k"] != "switch" or t_.get("on_ty") == "bool":
+                    continue
+                vm = _variants_for_discr(lb, facts, t_, x) or {}
+                if "None" not in vm.values():
+                    continue
+                for e in switch_alternatives(ls, x):
+                    if e[0] == "discr" and e[1][0] == "call" and len(e[1]) > 3 and e[1][3] == ri:
+                        listed = {vm.get(v, str(v)): tb for v, tb in t_["targets"]}
+                        tb = listed.get("None", t_.get("otherwise"))
+                        if tb is not None and not (lb.term(tb)["k"] == "unreachable" and not lb.blocks[tb]["stmts"]):
+                            miss.append((tb, 0))
+            R.floor("unmatched-keeps-reading", len(set(miss)), 1, "tests of the pending.remove result in " + lb.path)
+            w = must_cross(lb, miss, return_points(lb), reads_, after_start=False)
+            R.check(bool(reads_) and w is None, "unmatched-keeps-reading", lb.path, "an unmatched response does not end the reader",
+                    "after a response whose id is not pending the response loop can end without reading another frame: the waiters of all other calls on this "
+                    "connection never get their responses", rt.get("span"), "from the lookup-miss edge every way out of the loop passes another read", path=w)
         # ---------------- notify-before-pending (WS) --------------------------------------------------
         if module == "websocket_client" and len(removes) == 1:
             ri, rt = removes[0]
